@@ -226,7 +226,8 @@ def parseOut (line : Bytes) : OutMsg :=
   -- end a line for the server's reader; LF and NUL cannot be part of one message
   if line.contains 10 || line.contains 0 then .invalid "line feed or NUL inside a line"
   else
-    let toks := tokens 16 line
+    -- the reader on the other side (ircd) splits on blanks only
+    let toks := otokens 16 line
     match toks with
     | [] => .invalid "empty line"
     | t0 :: rest =>
@@ -260,6 +261,14 @@ def clientShapeOk (letter : UInt8) (rest : List Bytes) : Bool :=
   else if letter == 68 then rest.length ≤ 1                -- D [class]
   else if letter == 82 then rest.length == 1 || rest.length == 2   -- R account [class]
   else rest.length == 1                                   -- k C M N I o U u : one parameter
+
+/-- C09's grammar clause as one predicate: the line parses as an IAuth message and, when it is
+    client-directed, has the parameter count of its letter (what `onOutputs` flags otherwise) -/
+def wellFormed (line : Bytes) : Bool :=
+  match parseOut line with
+  | .invalid _ => false
+  | .client c _ _ _ rest => clientShapeOk c rest
+  | _ => true
 
 structure Violation where
   prop : String
